@@ -7,6 +7,7 @@ import (
 	"strconv"
 	"strings"
 	"sync"
+	"unicode"
 	"unicode/utf16"
 
 	"github.com/robertkrimen/otto"
@@ -229,6 +230,33 @@ func randUnits(r *h.Rng, maxUnits int) string {
 	return b.String()
 }
 
+// c09Cased reports whether Go or the UCD full mapping changes the code point (a superset test: anything
+// Go maps, plus the characters SpecialCasing.txt expands).
+func c09Cased(c rune) bool {
+	if unicode.ToLower(c) != c || unicode.ToUpper(c) != c || unicode.ToTitle(c) != c {
+		return true
+	}
+	switch {
+	case c == 0xDF || c == 0x149 || c == 0x1F0 || c == 0x390 || c == 0x3B0 || c == 0x587:
+		return true
+	case c >= 0x1E96 && c <= 0x1E9A, c >= 0x1F50 && c <= 0x1FFC, c >= 0xFB00 && c <= 0xFB17:
+		return true
+	}
+	return false
+}
+
+var c09CaseAlphabet = []rune{'a', 'Z', 'i', 'I', 0x130, 0x131, 0xDF, 0x149, 0x1C5, 0x1C4, 0x1C6, 0xFB00, 0xFB03, 0x3A3, 0x3C2, 0x3C3, 0x345, 0xFF, 0xB5, 0x178,
+	0x1F80, 0x1F88, 0x1FB3, 0x1FD2, 0x2C2F, 0x2C5F, 0xA7C0, 0x10400, 0x10428, 0x1E900, 0x1E922, 0x1D4B3, 0x587, 0x1E9E, 0x212A, 0x2126, 0x390, ' ', '1', 0xFFFD}
+
+func randCased(r *h.Rng) string {
+	n := r.Intn(8)
+	var b strings.Builder
+	for i := 0; i < n; i++ {
+		b.WriteRune(c09CaseAlphabet[r.Intn(len(c09CaseAlphabet))])
+	}
+	return b.String()
+}
+
 func fTok(f float64) string { return "f:" + h.F64Hex(f) }
 
 // positions: the boundary set for a string of n units
@@ -373,7 +401,7 @@ func genC09(c *h.Ctx) {
 		}
 	}
 	// (2) receiver table: every method on every kind of receiver
-	for _, op := range []string{"charAt", "charCodeAt", "slice", "substring", "substr", "indexOf", "lastIndexOf", "split", "concat", "trim", "localeCompare"} {
+	for _, op := range []string{"charAt", "charCodeAt", "slice", "substring", "substr", "indexOf", "lastIndexOf", "split", "concat", "trim", "localeCompare", "toLowerCase", "toUpperCase"} {
 		for _, rt := range []string{"Cu", "Cn", "Fu", "Mu", "Mn", "Cs:616263", "Ms:616263", "CS:616263", "MS:616263", "CO:616263", "Cw:0061d8000062", "Mw:0061d8000062",
 			"Cf:40c81c8000000000", "Cf:7ff8000000000001", "Cf:7ff0000000000000", "Cb:1", "Cb:0", "Ci64:-45", "Cf:8000000000000000"} {
 			for _, a := range []string{"", " " + fTok(1), " " + h.BytesTok("b") + " " + fTok(1)} {
@@ -387,6 +415,27 @@ func genC09(c *h.Ctx) {
 		for _, k := range []string{"0", "1", "2", "01", "+1", "-0", "-1", " 1", "1 ", "1.0", "1e0", "0x1", "4294967294", "4294967295", "4294967296", "9223372036854775808", "", "x", "00", "3", "10"} {
 			c.Add("index Ms:"+hx+" "+h.BytesTok(k), "index:keys")
 			c.Add("index MS:"+hx+" "+h.BytesTok(k), "index:keys")
+		}
+	}
+	// (3b) case mapping: every code point that has a mapping (quick) / every BMP code point (thorough), 8 per string
+	{
+		var cps []rune
+		for cp := rune(0); cp <= 0x10FFFF; cp++ {
+			if cp >= 0xD800 && cp <= 0xDFFF {
+				continue
+			}
+			if c09Cased(cp) || (c.Thorough() && cp < 0x10000) {
+				cps = append(cps, cp)
+			}
+		}
+		for i := 0; i < len(cps); i += 8 {
+			j := i + 8
+			if j > len(cps) {
+				j = len(cps)
+			}
+			hx := hex.EncodeToString([]byte(string(cps[i:j])))
+			c.Add("toLowerCase Ms:"+hx, "toLowerCase:table")
+			c.Add("toUpperCase Ms:"+hx, "toUpperCase:table")
 		}
 	}
 	// (4) fromCharCode
@@ -409,7 +458,7 @@ func genC09(c *h.Ctx) {
 		c.Add(strings.TrimSpace("fromCharCode - "+strings.Join(as, " ")), "fromCharCode")
 	}
 	// (5) random requests
-	ops := []string{"charAt", "charCodeAt", "slice", "substring", "substr", "indexOf", "lastIndexOf", "split", "concat", "trim", "localeCompare", "length", "index"}
+	ops := []string{"charAt", "charCodeAt", "slice", "substring", "substr", "indexOf", "lastIndexOf", "split", "concat", "trim", "localeCompare", "length", "index", "toLowerCase", "toUpperCase"}
 	for i := 0; i < c.N(40000, 2500000); i++ {
 		var s string
 		if r.Chance(15) {
@@ -419,6 +468,9 @@ func genC09(c *h.Ctx) {
 		}
 		n := unitLen(s)
 		op := ops[r.Intn(len(ops))]
+		if (op == "toLowerCase" || op == "toUpperCase") && r.Chance(70) {
+			s = randCased(r)
+		}
 		rt := randRecv(r, s)
 		var as []string
 		switch op {
